@@ -1,4 +1,4 @@
-\* quick facet "ibc": IBC and direct requests on two channels, reports, resolution and expiry, responses
+\* liveness facet (no symmetry, no state constraint): every accepted IBC request is answered, or its send failure recorded
 CONSTANTS
   Val = {v1, v2}
   Stranger = {}
@@ -9,7 +9,7 @@ CONSTANTS
   AskSet = {1, 2}
   MinSet = {1}
   ShapeSet = {"exact"}
-  Chan = {"c0", "c1"}
+  Chan = {"c0"}
   Payer = {"p1"}
   Acct = {}
   Treas = {"t1", "t2", "t3"}
@@ -18,7 +18,7 @@ CONSTANTS
   BalSet = {7}
   LimitSet = {6}
   EncSet = {"none"}
-  FormSet = {"good", "notjson"}
+  FormSet = {"good"}
   OsReqSet = {1, 2}
   ClientSet = {"k1"}
   TokSet = {}
@@ -28,16 +28,11 @@ CONSTANTS
   DsEditSet = {}
   OsEditSet = {}
   TreasTry = {}
-  HowSet = {}
+  HowSet = {"closed"}
   FlipSet = {}
   StepSet = {}
-  MaxH = 5
+  MaxH = 6
   MaxBreak = 1
-INIT IInitActive
-NEXT INext
-SYMMETRY Sym
-VIEW IView
-CONSTRAINT IBound
-INVARIANTS Inv IbcInv
-PROPERTIES FeeExact Conserved AckRule ResponseTimely OwnerOnly ResultImmutable ResultOnlyAtEndBlock
+SPECIFICATION ISpecBounded
+PROPERTIES EveryIbcAnswered
 CHECK_DEADLOCK FALSE
